@@ -10,13 +10,13 @@ def P(level, rule, variants=None, nbatch=(8, 16), timeout=(600, 3000), **kw):
 PROPS = {
  'C11': P('exploration',
           'cases = (schema, base capacity, view offset/length, prefix, data seed, operation sequence); (a) every view of frames '
-          'up to 5 (quick) / 9 (thorough) rows x every single operation with all parameters x 10 column schemas, (b) seeded random '
+          'up to 5 (quick) / 9 (thorough) rows x every single operation with all parameters x 12 column schemas (incl. pointer-free element types of 3, 10 and 12 bytes), (b) seeded random '
           'sequences of up to 30 operations over up to 4 live views. After every operation all storages (inside and outside views) '
           'and all views are compared with a slice-of-rows model. Non-trivial: the initial view has offset>0 or len<cap; distinct by descriptor.',
           variants={'quick': ['plain'], 'thorough': ['plain', 'checkptr']},
           must_observe=['ops_on_offset_views', 'storage_rows_checked']),
  'C07': P('fault_enumeration',
-          'fidelity cases = (schema, batch-size script, destination-size script, data seed) over 10 schemas incl. gob-only and pointer types, '
+          'fidelity cases = (schema, batch-size script, destination-size script, data seed) over 12 schemas incl. gob-only, pointer and odd-size pointer-free types, '
           'empty batches, sizes around 128; damage cases = every single-bit flip and every truncation point of the encoded bytes of small '
           '3-batch streams (exhaustive per stream) and random 1-6 byte bursts on 4-batch streams. Oracle: rows delivered == rows written '
           '(fidelity); for damage inside a batch: an error, every row delivered before it correct and not beyond the damaged batch. '
@@ -87,7 +87,7 @@ PROPS = {
           '{local p in 1,4,16; testsystem machine procs 1,2,4 x parallelism x max-load 0.3/0.95; machine combiners on/off; DoShuffleReaders on/off; '
           'chunk rows 1,2,4,8,128; sort canary 1,2,256; SpillBatchSize 1,3,128; Procs/Exclusive/Materialize pragmas at seed-chosen operators}. '
           'Oracle: canonicalised rows equal between all configurations and equal to the reference evaluator; counter vectors of result.Scope() '
-          'equal between configurations and equal to the increments counted by the recorder (programs with Head excluded). A combiner-contention '
+          'equal between configurations and equal to the increments counted by the recorder (programs with Head excluded). The diamond programs of C08\'s shared-producer family are executed with and without the Materialize pragma on the shared slice. A combiner-contention '
           'family (6 / 60 programs: 4-16 shards x 1000-4000 rows x 40-3000 keys through Reduce, optionally Reshard+Reduce again) runs on local, '
           'on testsystems with machine combiners and 4 resp. 2 procs per machine, and without machine combiners. '
           'Non-trivial: the program ran under both executor kinds.',
@@ -102,9 +102,10 @@ PROPS = {
           'increments counted independently by the recorder; (c) result chains (24 / 400): a base result feeds 1-3 further Funcs (over earlier results '
           'of the chain), Result.Scope() of every result is read before and after each step and must equal the increments of the runs whose tasks '
           'are in its graph, each counted once. Non-trivial: laws with >=1 merge/reset/gob combining two scopes; e2e run on both executors; chain '
-          'with non-zero counters in base and a derived run. Chain steps may discard the result they consume first (recomputation without failure).',
+          'with non-zero counters in base and a derived run. Chain steps may discard the result they consume first (recomputation without failure). (d) dropped replies: the reply of the k-th Worker.Run is lost '
+          '(no machine fails), the retried call is answered from the completed task: counters must equal those of a failure-free run.',
           variants={'quick': ['plain'], 'thorough': ['plain', 'race']}, nbatch=(8, 16),
-          must_observe=['law_op_merge', 'law_op_gob', 'law_op_reset', 'runs_with_nonzero_counters', 'increments_checked', 'chain_scope_reads', 'chain_discards_before_a_step', 'law_histories_read_end', 'law_histories_read_copy']),
+          must_observe=['law_op_merge', 'law_op_gob', 'law_op_reset', 'runs_with_nonzero_counters', 'increments_checked', 'chain_scope_reads', 'chain_discards_before_a_step', 'replies_dropped_after_the_task_had_run', 'law_histories_read_end', 'law_histories_read_copy']),
  'C08': P('exploration',
           'cases = (program spec with random pragmas, machine combiners on/off, optionally a Result argument of an earlier invocation): each is '
           'compiled by the driver path, compiled again, and compiled from the gob-transported invocation with references substituted as '
@@ -135,7 +136,8 @@ PROPS = {
           'writerfunc, map, filter, flatmap, fold, reduce combiner, repartition function, scan callback}, mode in {error, temporary error, panic, '
           'out-of-range partition} as applicable to the site, persistent | one-shot, position in {first call, call 127/128/129, last call}, and for '
           'the six producer-side sites what consumes the failing task\'s output: the result itself | a Reshuffle (several partitions, no combiner) | '
-          'Map+Reduce (through a combiner)). thorough = the full product; quick = a fixed sample of it (~230). A failure-free dry run '
+          'Map+Reduce (through a combiner)); the reduce combiner failed at its k-th invocation, k=0..39 (quick: 9 values), and a site reducebuf whose '
+          'producer cycles through five keys so that every producer-side invocation happens in the per-partition combine buffer. thorough = the full product; quick = a fixed sample of it (~230). A failure-free dry run '
           'on the same session fixes the reference rows and the number of calls, from which the failing call index is derived. Oracle: persistent '
           'failure => Run returns an error carrying the message (reader/writer/scan errors, every panic); one-shot temporary failure => success with '
           'reference rows; any success => reference rows (no partial result); calls <= 8x failure-free calls + 50; a trivial run on the same session '
@@ -144,7 +146,7 @@ PROPS = {
           nbatch=(16, 16), timeout=(900, 3400),
           must_observe=['persistent_failures_reported', 'one_shot_failures_recovered', 'sessions_reused_after_failure']),
  'C13': P('fault_enumeration',
-          'cases = (executor, Cache|CachePartial, position of the cache operator in {head, middle, before a shuffle, after a shuffle, under a Head}, '
+          'cases = (executor, Cache|CachePartial, position of the cache operator in {head, middle, after a Materialize-pragma dependency, before a shuffle, after a shuffle, under a Head}, '
           'shard count 1..3 (quick) / 1..4 (thorough), subset of shard files present before the second run (all subsets), fault plan). Fault plans: '
           'none; one fault at file-operation ordinal k of the write-through (k over the fault-free trace of the same program, quick: every 3rd/7th), '
           'optionally as a short write; the 1st/2nd Create or Close; every Write from ordinal k on failing persistently (k over the trace, so that no '
@@ -182,15 +184,15 @@ PROPS = {
           'machines (capacity 1..4, any load) is given to the real schedule() (verif export); oracle: an independent implementation of the documented '
           'rule compared on (priority, procs) of the chosen request and free capacity of the chosen machine, plus fit, preservation of both queues '
           'and heap-index consistency; exhaustive in that space. (b) live manager: seeded histories of offer / receive / cancel / done(ok | remote '
-          'error | transport error) / kill over a real machineManager on a testsystem, max-load in {0.3,0.5,1} x machine procs {1,2,4} x parallelism '
-          '{1,3,8}; a loop hook (tag verif) publishes a copy of the manager state at every iteration, on which 0<=taskProcs<=capacity, need>=0, '
+          'error | transport error) / kill over a real machineManager on a testsystem, max-load in {0.3,0.5,0.9,0.95,1} x machine procs {1,2,3,4} x parallelism '
+          '{1,3,8}; the capacity the manager uses is compared with an independent integer statement (procs x percent / 100, at least 1); a loop hook (tag verif) publishes a copy of the manager state at every iteration, on which 0<=taskProcs<=capacity, need>=0, '
           'pending>=0 are asserted; a client-side ledger cross-checks grants; at the end quiescence (all returned/cancelled => need=0, queue empty, '
           'all taskProcs=0) and machines started <= ceil(min(peak need, parallelism)/capacity) + machines lost. (c) end to end: programs with '
           'Procs/Exclusive pragmas through real sessions with every exit path provoked (success, user panic, persistent temporary error, machine '
           'kill after a task, kill before a combiner commit under machine combiners), then quiescence; local executor: a gauge in the source '
           'functions never exceeds Parallelism and reads 1 while an Exclusive task runs. Non-trivial: queue and machine list non-empty / >=1 event.',
           nbatch=(13, 16), timeout=(900, 3400),
-          must_observe=['placement_nontrivial', 'manager_snapshots_checked', 'offers_granted', 'e2e_runs', 'local_runs']),
+          must_observe=['placement_nontrivial', 'manager_snapshots_checked', 'offers_granted', 'e2e_runs', 'local_runs', 'capacities_checked_against_max_load_share']),
  'C15': P('fault_enumeration',
           'three monitors. (a) sequences: every operation sequence up to length 4 (quick, every 3rd) / 5 (thorough) over the alphabet {create, '
           'write 5, write 300, commit, discard-writer, open, open at offset 3, stat, discard} on both store implementations, fault-free; plus four '
@@ -214,14 +216,14 @@ PROPS = {
           'equal the description of what the driver passed. (c) unencodable arguments (chan, func, struct with only unexported fields, struct with a '
           'chan) passed through an interface parameter: Run must return an error within the watchdog with zero Worker.Run RPCs observed by the '
           'interposer. (d) FuncLocationsDiff over all pairs of location lists over a 3-letter alphabet up to length 4 (14641 pairs; thorough 5: '
-          '132496): nil iff equal, and the script (drop "- ", keep plain, insert "+ ") transforms the first list into the second; exhaustive; unencodable values also on the lazy path (argument of an invocation that runs no '
+          '132496): nil iff equal, and the script (drop "- ", keep plain, insert "+ ") transforms the first list into the second; exhaustive; a typed nil pointer held in an interface parameter (rejected or intact, never an untyped nil at the worker); unencodable values also on the lazy path (argument of an invocation that runs no '
           'tasks and returns its Result argument, consumed by a later invocation); a `resubmitting lost task` line after the run started is a retry. '
           '(e) result graphs on fresh workers: every DAG of 3-4 (thorough 5) results in which each Func consumes two earlier results (40 / 616 '
           'shapes) is run on a testsystem of 1-proc machines; the last Func has 6 shards so that it runs on machines that have compiled none of the '
           'earlier invocations (fresh=scale), or every machine is killed before it (fresh=kill; quick: every 4th shape): it must succeed with the '
           'reference rows (after a kill the documented give-up is counted, not flagged). '
           'Non-trivial: every case that completed.',
-          nbatch=(8, 16), must_observe=['arg_lists_roundtripped', 'e2e_invocations', 'e2e_with_result_argument', 'unencodable_rejected', 'location_list_pairs_diffed',
+          nbatch=(8, 16), must_observe=['typed_nil_in_interface_rejected', 'arg_lists_roundtripped', 'e2e_invocations', 'e2e_with_result_argument', 'unencodable_rejected', 'location_list_pairs_diffed',
                                         'result_graphs_evaluated_on_fresh_workers', 'graph_compile_rpcs_for_last_func']),
  'C02': P('fault_enumeration',
           'cases = (program of the fault suite {map-only, reduce, cogroup, fold, two-stage shuffle, reused result}, kill plan). Kill plans: none; one '
@@ -229,7 +231,7 @@ PROPS = {
           'received and before it is handed back) of the machine addressed, for every ordinal up to a per-method bound taken from failure-free traces '
           '(thorough; quick: first/middle/last ordinal); held-reply kills: the complete reply of the k-th Worker.Run is taken off the wire, its '
           'machine is killed, and the reply is delivered once the executor has logged the loss of that machine; mid-body kills: the reply of the k-th Worker.Read is cut in the middle of its body with its machine killed (shuffle reads and the final '
-          'scan); a kill of a random machine after the k-th Worker.Run; seeded pairs of kills (12 / 500). Read '
+          'scan), also held back until the executor has logged the loss so that the retry resumes at its offset on recomputed output; a kill of a random machine after the k-th Worker.Run; seeded pairs of kills (12 / 500). Read '
           'ordinals beyond those of the run hit the final scan. Every case runs in a fresh session on a testsystem (2 procs per machine, keepalive '
           '50/100 ms, fast bounded read-retry policy) with machine combiners off; kills are performed by an RPC interposer around the testsystem\'s '
           'HTTP client. Oracle: Run+scan succeed with exactly the reference rows, or an error is reported; after a single kill an error from Run must '
